@@ -153,6 +153,25 @@ pub fn exec(line: &str, model: &mut Model) -> Option<Exec> {
             e.tags.push(format!("wf:{}", wf(&b)));
             Some(e)
         }
+        "json.enc" => {
+            let (b, n) = parse_bundle(&t[1..])?;
+            if n + 1 != t.len() { return None; }
+            let mut b1 = b.clone();
+            let r = no_panic(|| { let j = b1.to_json(); (j, b1) });
+            let (j, b1) = match r { Some(x) => x, None => { let mut e = Exec::new("panic".into()); e.oracle_fail = Some("to_json panics".into()); return Some(e); } };
+            let back = no_panic(|| Bundle::try_from(j.clone()));
+            let mut e = Exec::new(format!("ok {} {} rt={}", hex(j.as_bytes()), show_bundle(&b1), match &back { None => "panic".to_string(), Some(Ok(d)) => format!("ok {}", show_bundle(d)), Some(Err(_)) => "err".to_string() }));
+            if wf(&b) {
+                match &back {
+                    Some(Ok(d)) if *d == b1 => {}
+                    Some(Ok(d)) => e.oracle_fail = Some(format!("JSON round trip yields a different bundle: {}", show_bundle(d))),
+                    Some(Err(err)) => e.oracle_fail = Some(format!("own JSON form rejected: {}", err)),
+                    None => e.oracle_fail = Some("JSON parser panics on own output".into()),
+                }
+            }
+            e.tags.push(format!("frag:{} wf:{}", b.primary.bundle_control_flags & 1, wf(&b)));
+            Some(e)
+        }
         "crcok" => {
             let (mut b, n) = parse_bundle(&t[1..])?;
             if n + 1 != t.len() { return None; }
@@ -185,7 +204,7 @@ fn mutate_after_crc(rng: &mut Rng, b: &mut Bundle) {
 
 pub fn generate(prop: &str, ctx: &mut Ctx, rep: &mut Report, emit: &mut dyn FnMut(&mut Ctx, &mut Report, String)) {
     let mut rng = Rng::new(ctx.seed ^ 0xC01);
-    let op = match prop { "C02" => "spec.enc", "C03" => "spec.dec", _ => "enc" };
+    let op = match prop { "C02" => "spec.enc", "C03" => "spec.dec", "C15" => "json.enc", _ => "enc" };
     // all block counts across the array-head boundaries
     let counts: Vec<u64> = if ctx.tier_thorough { (0..=300).collect() } else { vec![0, 1, 2, 20, 21, 22, 23, 24, 25, 254, 255, 256, 257] };
     for n in counts {
